@@ -32,7 +32,8 @@ class CallableMapping(BasicCallableMapping):
             subs = {a:params[a.name] for a in constants}
             expressions = expressions.subs(subs)
             jac         = jac.subs(subs)
-            inv_jac     = inv_jac.subs(subs)
+            if inv_jac is not None: # no inverse is stored for surfaces and curves (pdim > ldim)
+                inv_jac = inv_jac.subs(subs)
             metric      = metric.subs(subs)
             metric_det  = metric_det.subs(subs)
 
